@@ -147,8 +147,15 @@ type ReplayFile struct {
 	Case     json.RawMessage `json:"case"`
 }
 
+func replayDir() string {
+	if d := os.Getenv("VERIF_REPLAY_DIR"); d != "" {
+		return d
+	}
+	return filepath.Join(VerifDir(), "replay")
+}
+
 func replayPath(prop, test string) string {
-	return filepath.Join(VerifDir(), "replay", fmt.Sprintf("%s-%s-seed%d-shard%d.json", prop, test, Seed(), Shard()))
+	return filepath.Join(replayDir(), fmt.Sprintf("%s-%s-seed%d-shard%d.json", prop, test, Seed(), Shard()))
 }
 
 func writeReplay(prop, test string, res Result, c any) string {
